@@ -69,6 +69,11 @@ VMETHODS = {
                              ("outlength >= 0", lambda a: a["outlength"] >= 0)]},
 }
 
+# methods that recurse with (axis, depth): a list class passes depth + 1 to its content, every other class passes depth;
+# a call on a conversion of *this passes depth unchanged (G.method "depth")
+DEPTH_METHODS = {"num": 1, "offsets_and_flattened": 1, "localindex": 1, "rpad": 2, "rpad_and_clip": 2, "combinations": 5}   # index of `depth`
+LIST_CLASSES = ("ListArrayOf", "ListOffsetArrayOf", "RegularArray")
+
 # preconditions of virtual methods (stated once; their call sites are glue and are not checked here)
 METHOD_PRE = {
     "reduce_next": ["outlength >= 0", "negaxis >= 1"],
@@ -142,7 +147,7 @@ class CallerUnit(munit.MUnit):
                 line = node[-1]
             if node and node[0] == "call" and isinstance(node[1], str) and node[1] in kernels:
                 occ.setdefault(node[1], set()).add(line)
-            if node and node[0] == "mcall" and len(node) > 2 and isinstance(node[2], str) and node[2] in VMETHODS:
+            if node and node[0] == "mcall" and len(node) > 2 and isinstance(node[2], str) and (node[2] in VMETHODS or node[2] in DEPTH_METHODS):
                 occ.setdefault("method:" + node[2], set()).add(line)
             for x in node:
                 walk(x, line)
@@ -161,6 +166,7 @@ class CallerUnit(munit.MUnit):
         self.ev.ev_str = lambda e, st: Val(IV(0), "opaque")
         self.ev.emit_safety = False
         self.clen = {}
+        self.corigin = {}               # opaque Content id -> "content" (the content_ field or derived from it) | "this"
 
     # ---- objects
     def new_object(self, key, length, ety, st):
@@ -186,6 +192,8 @@ class CallerUnit(munit.MUnit):
             return v
         t = unconst(ty) if isinstance(ty, str) else "i64"
         v = self.opaque_value(t, st, name)
+        if name == "content_" and v.k == "opaque" and z3.is_int_value(v.t):
+            self.corigin[v.t.as_long()] = "content"
         st.vars[name] = v
         return v
 
@@ -262,10 +270,30 @@ class CallerUnit(munit.MUnit):
         st.assume(self.clen[oid] >= 0)
         return self.clen[oid]
 
-    def new_content(self, length, st):
+    def new_content(self, length, st, origin=None):
         self.ext_counter += 1
         self.clen[self.ext_counter] = length
+        if origin is not None:
+            self.corigin[self.ext_counter] = origin
         return Val(IV(self.ext_counter), "opaque")
+
+    def check_depth(self, name, oid, args, st):
+        """G.method depth: the depth handed to the recursive call is this method's depth plus one exactly when the call
+        descends from a list class into its content"""
+        k = DEPTH_METHODS[name]
+        origin = self.corigin.get(oid)
+        if origin is None or len(args) <= k or "depth" not in st.vars or st.vars["depth"].k != "int":
+            return
+        try:
+            d = to_int(self.ev.ev(args[k], st))
+        except EvalError:
+            return
+        step = 1 if (origin == "content" and self.clsname in LIST_CLASSES) else 0
+        self.vcallno = getattr(self, "vcallno", 0) + 1
+        rec_base = {"kernel": "method:" + name, "line": self.ev.line,
+                    "n": self.site_ordinal.get(("method:" + name, self.ev.line), 100 + self.vcallno)}
+        self.emit(rec_base, "G.method", "depth == depth + %d" % step, d == st.vars["depth"].t + step, st,
+                  "call of %s on %s: passes depth + %d" % (name, "the content" if origin == "content" else "a conversion of *this", step))
 
     def check_vmethod(self, name, this_len, args, e, st):
         """G.method: the arguments of a recursive virtual call satisfy the callee's (length) preconditions"""
@@ -353,21 +381,24 @@ class CallerUnit(munit.MUnit):
                 return Val(self.content_len(oid, st), "int")
             if name in VMETHODS:
                 self.check_vmethod(name, self.content_len(oid, st), args, e, st)
+            if name in DEPTH_METHODS:
+                self.check_depth(name, oid, args, st)
+            org = self.corigin.get(oid)
             if name == "carry" and len(args) >= 1:
                 try:
                     idx = self.ev.ev(args[0], st)
                 except EvalError:
                     idx = None
                 if idx is not None and idx.k == "obj":
-                    return self.new_content(self.objlen[idx.arr], st)
+                    return self.new_content(self.objlen[idx.arr], st, org)
             if name == "getitem_range_nowrap" and len(args) == 2:
                 try:
                     a, b = to_int(self.ev.ev(args[0], st)), to_int(self.ev.ev(args[1], st))
-                    return self.new_content(b - a, st)
+                    return self.new_content(b - a, st, org)
                 except EvalError:
                     pass
             if name in SAME_LENGTH_METHODS:
-                return self.new_content(self.content_len(oid, st), st)
+                return self.new_content(self.content_len(oid, st), st, org)
         # pure getters on opaque objects are stable: same text, same value
         if not args and name in ("length", "size", "get", "numfields", "numcontents", "ndim", "itemsize", "purelist_depth",
                                  "isscalar", "istuple", "dtype", "format", "ptr_lib", "byteoffset", "bytelength"):
@@ -432,7 +463,7 @@ class CallerUnit(munit.MUnit):
             v = self._call_rest(ev, e, st)
             tl = self.this_length(st)
             if tl is not None:
-                return self.new_content(tl, st)
+                return self.new_content(tl, st, "this")
             return v
         return self._call_rest(ev, e, st)
 
@@ -703,7 +734,7 @@ def _work(task):
             for k, f in enumerate(fs):
                 if f.get("body") is None:
                     continue
-                if not _mentions_kernel(f["body"], _G["kernels"]) and not any(('"%s"' % vm) in json.dumps(f["body"]) for vm in VMETHODS):
+                if not _mentions_kernel(f["body"], _G["kernels"]) and not any(('"%s"' % vm) in json.dumps(f["body"]) for vm in list(VMETHODS) + list(DEPTH_METHODS)):
                     continue
                 out["methods"] += 1
                 body = munit.subst_helpers(copy.deepcopy(f["body"]), helpers)
